@@ -84,7 +84,7 @@ def _one(args):
 
 
 def _one_parsed(args):
-    seed, idx, monitors, scratch = args
+    seed, idx, monitors, scratch = args[:4]
     import logging
     import warnings
     warnings.filterwarnings("ignore")
@@ -94,7 +94,9 @@ def _one_parsed(args):
     import travparsed
     rng = random.Random(seed * 7000003 + idx)
     spec = travparsed.gen_parsed_spec(rng, idx)
-    return _run_spec(spec, monitors, (seed, idx, "parsed"))
+    if len(args) > 4 and args[4]:
+        spec["lazyparsed"] = True     # flat tests expanded by the REAL parser during the traversal
+    return _run_spec(spec, monitors, (seed, idx, "lazyparsed" if spec.get("lazyparsed") else "parsed"))
 
 
 def _run_spec(spec, monitors, ident):
@@ -103,7 +105,7 @@ def _run_spec(spec, monitors, ident):
         run_cls = None
         if spec.get("parsed"):
             import travparsed
-            run_cls = travparsed.ParsedRun
+            run_cls = travparsed.LazyParsedRun if spec.get("lazyparsed") else travparsed.ParsedRun
         res = travlib.run_case(spec, vlib.driver, monitors=monitors, run_cls=run_cls)
     except Exception as e:  # harness problem, not a verdict
         import traceback
@@ -124,7 +126,8 @@ def _run_spec(spec, monitors, ident):
     return res
 
 
-def family_run(ctx, monitors, n_cases, profiles=PROFILES, procs=14, corpus=None, label="trav", seed_offset=0, n_parsed=0):
+def family_run(ctx, monitors, n_cases, profiles=PROFILES, procs=14, corpus=None, label="trav", seed_offset=0, n_parsed=0,
+               n_lazyparsed=0):
     scratch = ctx.mkscratch()
     jobs = [(ctx.seed + seed_offset, i, profiles[i % len(profiles)], monitors, scratch) for i in range(n_cases)]
     results = []
@@ -135,6 +138,8 @@ def family_run(ctx, monitors, n_cases, profiles=PROFILES, procs=14, corpus=None,
                 os.chdir(scratch)
                 results.append(_run_spec(json.load(open(os.path.join(corpus, f)))["spec"], monitors, ("corpus", f, "")))
     pjobs = [(ctx.seed + seed_offset, i, monitors, scratch) for i in range(n_parsed)]
+    # lazily parsed runs: the selections rotate with the seed
+    pjobs += [(ctx.seed + seed_offset, 5 * (ctx.seed + seed_offset) + 3 * i, monitors, scratch, True) for i in range(n_lazyparsed)]
     with multiprocessing.get_context("fork").Pool(procs) as pool:
         pending = pool.imap_unordered(_one_parsed, pjobs, chunksize=1)     # the slow ones first
         for r in pool.imap_unordered(_one, jobs, chunksize=2):
@@ -150,6 +155,11 @@ def judge(ctx, results, monitors, label="trav"):
         if "error" in r:
             raise RuntimeError(f"traversal harness failed on case {r['ident']}: {r['error']}")
         spec = r["spec"]
+        if spec.get("lazyparsed"):
+            ctx.count("graph=shipped-suite-expanded-lazily-by-the-real-parser")
+            for name, want, got in r.get("lazy_vs_eager", []):
+                ctx.violate("lazy-expansion-differs-from-eager-parse", f"{name}: eager parents {want}, lazily expanded parents {got}",
+                            {"kind": label, "spec": spec, "monitor": "lazy_vs_eager", "item": name})
         if spec.get("parsed"):
             ctx.count("graph=parsed-shipped-suite")
             ctx.count("parsed:" + spec["parsed"]["tests_str"].replace("\n", ";") + " nets=" + spec["parsed"]["nets"])
